@@ -47,6 +47,7 @@ type Profile struct {
 	CleanPct     int  // percentage of histories kept away from the known value-path defects
 	Burst        bool // often issue all Sets before any controller runs (overlapping transactions)
 	RollbackBias bool // about every second request is a rollback; clean histories may roll back too
+	Inter        bool // about every fourth invocation is pre-empted before one of its writes by an invocation of another partition
 }
 
 type sim struct {
@@ -231,6 +232,27 @@ func (g *sim) runOne(id string) {
 		args = append(args, fmt.Sprintf("inject=%s:%d", kind, g.r.Intn(4)))
 		g.tags["inject-"+kind] = true
 	}
+	if g.p.Inter && g.r.Chance(1, 3) {
+		// pre-emption: another reconciler (a different work-queue partition) runs one whole invocation
+		// just before the k-th write of this one
+		var cands []string
+		for _, q := range g.queue {
+			if partitionOf(q) != partitionOf(id) {
+				cands = append(cands, q)
+			}
+		}
+		for _, t := range g.targets {
+			for _, q := range []string{fmt.Sprintf("mast:%d", t), fmt.Sprintf("cfg:%d", t)} {
+				if partitionOf(q) != partitionOf(id) {
+					cands = append(cands, q)
+				}
+			}
+		}
+		if len(cands) > 0 {
+			args = append(args, fmt.Sprintf("inter=%d:%s", g.r.Intn(3), cands[g.r.Intn(len(cands))]))
+			g.tags["pre-empted"] = true
+		}
+	}
 	out := g.do(strings.Join(args, " "))
 	// wake-ups: anything a write could have touched (a superset of the real watcher mapping)
 	f := strings.Fields(out)
@@ -260,7 +282,7 @@ func (g *sim) runOne(id string) {
 	}
 }
 
-func (g *sim) fault() {
+func (g *sim) fault() (target int) {
 	switch g.r.Intn(5) {
 	case 0, 1:
 		t := g.targets[g.r.Intn(len(g.targets))]
@@ -269,12 +291,14 @@ func (g *sim) fault() {
 		g.do(fmt.Sprintf("v2.fault relup %d %d", g.nextRel, t))
 		g.enqueue(fmt.Sprintf("mast:%d", t), fmt.Sprintf("cfg:%d", t))
 		g.tags["relup"] = true
+		target = t
 	case 2:
 		for id, t := range g.rels {
 			g.do(fmt.Sprintf("v2.fault reldown %d", id))
 			delete(g.rels, id)
 			g.enqueue(fmt.Sprintf("mast:%d", t))
 			g.tags["reldown"] = true
+			target = t
 			break
 		}
 	case 3:
@@ -294,7 +318,9 @@ func (g *sim) fault() {
 		}
 		g.enqueue(fmt.Sprintf("mast:%d", t))
 		g.tags["devrestart"] = true
+		target = t
 	}
+	return target
 }
 
 // Generate builds one history by driving a real system with random scheduling; the recorded
@@ -361,7 +387,21 @@ func Generate(r *rng.R, p Profile) fw.Case {
 				g.newSet()
 			}
 		case p.Faults && (r.Chance(1, 12) || (p.FaultBias && r.Chance(1, 6))):
-			g.fault()
+			t := g.fault()
+			if p.Inter && t > 0 && r.Chance(1, 2) {
+				// the mastership reconciler reacts to the fault while a configuration (or proposal) invocation
+				// that read the old term is between its snapshot and one of its writes
+				a := fmt.Sprintf("cfg:%d", t)
+				if r.Chance(1, 3) && g.nTx > 0 {
+					a = fmt.Sprintf("prop:%d:%d", t, r.Range(1, g.nTx))
+				}
+				out := g.do(fmt.Sprintf("v2.run %s inter=%d:mast:%d", a, r.Intn(2), t))
+				g.tags["pre-empted"] = true
+				if strings.Contains(out, "effects=") && !strings.Contains(out, "effects=0 ") {
+					g.tags["write"] = true
+				}
+				g.enqueue(a, fmt.Sprintf("mast:%d", t), fmt.Sprintf("cfg:%d", t))
+			}
 		case len(g.queue) > 0:
 			i := r.Intn(len(g.queue))
 			switch r.Intn(4) {
@@ -444,4 +484,16 @@ func Generate(r *rng.R, p Profile) fw.Case {
 		nt = nt && g.tags["rollback"]
 	}
 	return fw.Case{Script: g.script, Tags: tags, Nontrivial: nt}
+}
+
+// partitionOf is the work-queue partition an id is processed in: invocations of one partition never overlap.
+func partitionOf(id string) string {
+	f := strings.Split(id, ":")
+	switch f[0] {
+	case "tx":
+		return "tx"
+	case "prop":
+		return "prop:" + f[1]
+	}
+	return id
 }
